@@ -1287,9 +1287,14 @@ def search(ctx, broken, budget_s):
         N = min(pick_N(fam, rng, True), 4)
         pool = [nm for nm in fam.names if nm != "I"] or ["I"]
         case = {"kind": "measure", "which": "2site", "fam": fam.key, "N": N, "names": [rng.choice(pool), rng.choice(pool)],
-                "seed": rng.randrange(2 ** 40), "patterns": ["a"]}
+                "seed": rng.randrange(2 ** 40), "patterns": ["a"], "gauge": [rand_gauge(rng), rand_gauge(rng)]}
         check_measure_case(ctx, case)
-    ctx.notes.append("failing-input search = eager NumPy-JW oracles on fresh random generate_mpo / measure_2site cases")
+        case = {"kind": "sample", "fam": fam.key, "N": N, "mode": rng.choice(["vector", "matrix", "sector"]),
+                "seed": rng.randrange(2 ** 40), "cplx": rng.random() < 0.3, "gauge": rand_gauge(rng),
+                "pform": rng.choice(["list", "dict", "keyed", "per-site"]), "number": 4}
+        check_sample_case(ctx, case)
+    ctx.notes.append("failing-input search = eager NumPy-JW oracles on fresh random generate_mpo / measure_2site / sample cases "
+                     "(states as generated and re-gauged)")
 
 
 def replay(ctx, obj):
